@@ -6,7 +6,7 @@
 /*@ item src/common/peer.rs struct RequestUpgrade @*/
 /*@ item src/common/peer.rs struct ValuelessProof @*/
 
-use flat_tree::{p2, anc, anc_idx, depth_of, offset_of, node_index};
+use flat_tree::{anc, anc_idx};
 
 /// every instruction asks for a record of the tree store (what the core's read-retry drivers rely on)
 pub open spec fn instr_tree(ins: Seq<StoreInfoInstruction>) -> bool { forall|k: int| 0 <= k < ins.len() ==> (#[trigger] ins[k]).store == Store::Tree }
@@ -381,9 +381,8 @@ impl MerkleTree {
     /// where the trees of roots 0..k end, the trees end at leaf `length`, and the root sizes add up to the byte length
     pub open spec fn roots_wf(&self) -> bool {
         &&& self.roots@.len() <= 64
-        &&& forall|k: int| 0 <= k < self.roots@.len() ==> (#[trigger] self.roots@[k]).index == root_start(self.roots@, k) + p2(depth_of(self.roots@[k].index)) - 1
-                && self.roots@[k].length <= 0xffff_ffff_ffff
-        &&& root_start(self.roots@, self.roots@.len() as int) == 2 * self.length
+        &&& mr(self.roots@) && root_start(self.roots@, self.roots@.len() as int) == 2 * self.length
+        &&& forall|k: int| 0 <= k < self.roots@.len() ==> (#[trigger] self.roots@[k]).length <= 0xffff_ffff_ffff
     }
 
     /*@ fn src/tree/merkle_tree.rs MerkleTree::byte_offset_from_nodes
@@ -410,6 +409,7 @@ impl MerkleTree {
             lemma_root_start_even(self.roots@, vp_i as int);
             lemma_root_start_even(self.roots@, vp_i - 1);
             assert(*root_node == self.roots@[vp_i - 1]);
+            assert(mr_at(self.roots@, vp_i - 1));
             assert(head == root_start(self.roots@, vp_i - 1));
             assert(root_node.index == head + p2(depth_of(root_node.index)) - 1);
             assert(root_start(self.roots@, vp_i as int) == root_start(self.roots@, vp_i - 1) + p2(depth_of(self.roots@[vp_i - 1].index) + 1));
@@ -530,25 +530,6 @@ pub proof fn lemma_root_iter(it: flat_tree::Iterator, head0: int, head: int, ind
     flat_tree::lemma_p2_4x();
     flat_tree::lemma_depth_bound(it, 42);
 }
-/// flat index at which the tree of root k starts
-pub open spec fn root_start(roots: Seq<Node>, k: int) -> int
-    decreases k
-{ if k <= 0 { 0 } else { root_start(roots, k - 1) + p2(depth_of(roots[k - 1].index) + 1) } }
-pub proof fn lemma_root_start_mono(roots: Seq<Node>, a: int, b: int)
-    requires 0 <= a <= b
-    ensures 0 <= root_start(roots, a) <= root_start(roots, b)
-    decreases b
-{
-    if a < b { lemma_root_start_mono(roots, a, b - 1); flat_tree::lemma_p2_pos(depth_of(roots[b - 1].index) + 1); }
-    else if a > 0 { lemma_root_start_mono(roots, a - 1, a - 1); flat_tree::lemma_p2_pos(depth_of(roots[a - 1].index) + 1); }
-}
-pub proof fn lemma_root_start_even(roots: Seq<Node>, k: int)
-    ensures root_start(roots, k) % 2 == 0
-    decreases k
-{
-    if k > 0 { lemma_root_start_even(roots, k - 1); assert(p2(depth_of(roots[k - 1].index) + 1) == 2 * p2(depth_of(roots[k - 1].index))); }
-}
-
 /// `iter.contains(x)` for a node index x: x lies in the subtree iter is on
 pub proof fn lemma_contains_anc(it: flat_tree::Iterator, x: u64)
     requires it.wf(), it.spans(x as int), it.index < 0x800_0000_0000
@@ -559,30 +540,4 @@ pub proof fn lemma_contains_anc(it: flat_tree::Iterator, x: u64)
     flat_tree::lemma_span_anc(depth_of(x), offset_of(x), it.d@, it.offset as int);
     flat_tree::lemma_p2_4x();
     flat_tree::lemma_depth_bound(it, 43);
-}
-
-/// the iterator sits on the full root found from leaf `gl` (aligned for 2^(ga+1) leaves) below `to`
-pub open spec fn full_root_at(it: flat_tree::Iterator, gl: int, ga: nat, to: u64) -> bool {
-    &&& it.wf() && gl >= 0 && flat_tree::leaf_aligned(gl, ga, to as int)
-    &&& it.index == gl + p2(it.d@) - 1 && gl + p2(it.d@ + 1) <= to && to < gl + p2(it.d@ + 2)
-}
-pub proof fn lemma_full_root_small(it: flat_tree::Iterator, gl: int, ga: nat, to: u64)
-    requires full_root_at(it, gl, ga, to), to < 0x400_0000_0000
-    ensures it.d@ <= 41, it.index < to, it.factor <= to, it.index + it.factor <= 0x3fff_ffff_ffff_ffff, it.index + it.factor / 2 == gl + p2(it.d@ + 1) - 1,
-        it.index + p2(it.d@) <= to
-{
-    flat_tree::lemma_p2_4x(); flat_tree::lemma_p2_pos(it.d@);
-    if it.d@ + 1 > 42 { flat_tree::lemma_p2_mono(42, it.d@ + 1); }
-}
-/// stepping to the next tree keeps the alignment the next full_root call needs, and makes progress
-pub proof fn lemma_next_tree(it: flat_tree::Iterator, gl: int, ga: nat, to: u64)
-    requires full_root_at(it, gl, ga, to), to < 0x400_0000_0000
-    ensures flat_tree::leaf_aligned(gl + p2(it.d@ + 1), it.d@, to as int), it.index + it.factor <= 0x3fff_ffff_ffff_ffff,
-        it.index + p2(it.d@) + 1 == gl + p2(it.d@ + 1), p2(it.d@ + 1) >= 2, gl + p2(it.d@ + 1) <= to, (gl + p2(it.d@ + 1)) % 2 == 0
-{
-    lemma_full_root_small(it, gl, ga, to);
-    flat_tree::lemma_next_aligned(gl, ga, it.d@, to as int);
-    flat_tree::lemma_p2_pos(it.d@);
-    vstd::arithmetic::div_mod::lemma_mod_mod(gl + p2(it.d@ + 1), 2, p2(it.d@));
-    assert(p2(it.d@ + 1) == 2 * p2(it.d@));
 }
